@@ -9,10 +9,14 @@
    [0-] engine; E1 = engines[0][0], the [0+] engine).  The reversibility theorems come in two
    forms: one dynamics for both ensembles, and two different dynamics (T0, R0) / (T1, R1).
    The two length limits are separate inputs: e_maxlen e0 = tis_set["maxlength"] of [0-],
-   e_maxlen e1 = that of [0+] (retis_swap_zero reads both; quantis_swap_zero reads the [0-] one
-   twice).  Validity and limit theorems are stated for e_maxlen e0 <= e_maxlen e1 (infretis hands
-   both ensembles one shared tis_set, so the limits are equal there); what happens for
-   e_maxlen e0 > e_maxlen e1 is recorded by the two ..._limit_order_refuted witnesses below. *)
+   e_maxlen e1 = that of [0+]; both moves size and measure each new path with the limit of that
+   path's OWN ensemble.  Validity, limit, rejection-status and reversibility theorems hold for
+   EVERY pair of limits.  That is the code after proposed_fixes/C11_zero_swap_own_limits.diff; the
+   code before it (SwapM.retis_swap_zero_before_fix / quantis_swap_zero_before_fix = the same
+   functions at fixed = false: backward container of retis_swap_zero sized with the [0+] limit,
+   quantis_swap_zero reading the [0-] limit for both paths) is refuted by the two
+   ..._limit_order_refuted witnesses below and coincides with the code when the limits are equal
+   (C11_before_fix_same_on_equal_limits). *)
 From Coq Require Import ZArith QArith List Bool Lia.
 Import ListNotations.
 From Inf Require Import model.PathM model.EngineM model.WeightM model.SwapM proofs.PathP proofs.SwapP.
@@ -106,7 +110,7 @@ Print Assumptions C11_swap_accepted_shape.
 (* Conversely these conditions are sufficient (no wire fencing in either ensemble): the old
    [0-] path ends on the right and the early exit does not apply, the backward run stops at its
    k0-th frame and the forward run at its k1-th by crossing an interface, 2 <= k0, k0 + 1 below
-   the [0-] limit, k0 within the [0+] limit minus one, 2 <= k1, k1 + 1 below the [0+] limit, and
+   the [0-] limit, 2 <= k1, k1 + 1 below the [0+] limit (nothing else about the two limits), and
    the new [0-] path has no forbidden "L" end.  Then the move is accepted with exactly the
    paths of C11_swap_accepted_shape. *)
 Theorem C11_swap_accepted_if : forall dumpf e0 e1 old0 old1 s0 s1 rest draws f10 f11 tl1 pre0 f0m2 f0l k0 k1,
@@ -114,7 +118,7 @@ Theorem C11_swap_accepted_if : forall dumpf e0 e1 old0 old1 s0 s1 rest draws f10
   pts (sp_path old0) = pre0 ++ [f0m2; f0l] ->
   end_point (sp_path old0) (e_i0 e0) (e_i2 e0) = Some SR ->
   lm1_early e0 (sp_path old0) = false ->
-  stops_at (e_i0 e0) (e_i2 e0) s0 k0 -> (2 <= k0)%nat -> (k0 + 1 < e_maxlen e0)%nat -> (k0 <= e_maxlen e1 - 1)%nat ->
+  stops_at (e_i0 e0) (e_i2 e0) s0 k0 -> (2 <= k0)%nat -> (k0 + 1 < e_maxlen e0)%nat ->
   stops_at (e_i0 e1) (e_i2 e1) s1 k1 -> (2 <= k1)%nat -> (k1 + 1 < e_maxlen e1)%nat ->
   (e_scL e0 = false ->
    has_L_start_end (mkP (rev (firstn k0 s0) ++ [dump dumpf DSecond f11]) (e_maxlen e0) 0) e0 = false) ->
@@ -125,23 +129,22 @@ Theorem C11_swap_accepted_if : forall dumpf e0 e1 old0 old1 s0 s1 rest draws f10
     retis_swap_zero dumpf e0 e1 old0 old1 (s0 :: s1 :: rest) draws =
     Out true (mkSP (mkP (rev (firstn k0 s0) ++ [dump dumpf DSecond f11]) (e_maxlen e0) 0) ACC 1)
              (mkSP path1 ACC 1) ACC
-        [mkCall E0 (copy_frame 0 f10) true (e_i0 e0) (e_i2 e0) (e_maxlen e1 - 1) k0;
+        [mkCall E0 (copy_frame 0 f10) true (e_i0 e0) (e_i2 e0) (e_maxlen e0 - 1) k0;
          mkCall E1 (copy_frame 0 f0l) false (e_i0 e1) (e_i2 e1) (e_maxlen e1 - 1) k1] 0.
 Proof. exact retis_swap_complete. Qed.
 Print Assumptions C11_swap_accepted_if.
 
 (* ------------------------------------------------------------------ validity of both new paths *)
 
-(* With maxlength([0-]) <= maxlength([0+]) (infretis: one shared tis_set), ordered [0-]
+(* For ANY two length limits maxlength([0-]), maxlength([0+]): with ordered [0-]
    interfaces, and old paths whose junction frames lie on the proper side of lambda_0 (second
    frame of old[0+] >= lambda_0, second last of old[0-] <= lambda_0 — true for valid old paths):
-   new [0-] = a :: mid ++ [b], at least 3 frames and fewer than the limit, a strictly outside
+   new [0-] = a :: mid ++ [b], at least 3 frames and fewer than the [0-] limit, a strictly outside
    [lambda_-1, lambda_0] (to the right unless "L" is an allowed start), every interior frame
-   inside, b >= lambda_0;   new [0+] = a :: mid ++ [b], 3 <= length < limit, a <= lambda_0,
+   inside, b >= lambda_0;   new [0+] = a :: mid ++ [b], 3 <= length < the [0+] limit, a <= lambda_0,
    interior inside [lambda_0, lambda_N], b strictly outside. *)
 Theorem C11_swap_valid : forall dumpf e0 e1 old0 old1 streams draws sp0 sp1 st calls nd,
   retis_swap_zero dumpf e0 e1 old0 old1 streams draws = Out true sp0 sp1 st calls nd ->
-  (e_maxlen e0 <= e_maxlen e1)%nat ->
   e_i0 e0 <= e_i1 e0 <= e_i2 e0 ->
   (forall f10 f11 tl, pts (sp_path old1) = f10 :: f11 :: tl -> e_i2 e0 <= ford f11) ->
   (forall pre a b, pts (sp_path old0) = pre ++ [a; b] -> ford a <= e_i0 e1) ->
@@ -159,7 +162,7 @@ Print Assumptions C11_swap_valid.
 (* ------------------------------------------------------------------ the two length limits *)
 
 (* A swap that cannot complete a new path below that path's OWN limit is rejected with the
-   corresponding status (MD allowed, no early exit, maxlength([0-]) <= maxlength([0+])):
+   corresponding status (MD allowed, no early exit, any two limits):
    - if none of the first maxlength([0-]) - 1 frames of the backward run lies beyond a [0-]
      interface, the new [0-] path fills its limit and the move is rejected with BTX;
    - if none of the first maxlength([0+]) - 1 frames of the forward run lies beyond a [0+]
@@ -169,7 +172,6 @@ Theorem C11_swap_limit_reject : forall dumpf e0 e1 old0 old1 s0 s1 rest draws ac
   retis_swap_zero dumpf e0 e1 old0 old1 (s0 :: s1 :: rest) draws = Out acc sp0 sp1 st calls nd ->
   lm1_early e0 (sp_path old0) = false ->
   end_point (sp_path old0) (e_i0 e0) (e_i2 e0) = Some SR ->
-  (e_maxlen e0 <= e_maxlen e1)%nat ->
   ((forall f, In f (firstn (e_maxlen e0 - 1) s0) -> crossedb (e_i0 e0) (e_i2 e0) f = false) ->
      acc = false /\ st = BTX /\ sp_status sp0 = BTX /\ plen (sp_path sp0) = e_maxlen e0) /\
   ((forall f, In f (firstn (e_maxlen e1 - 1) s1) -> crossedb (e_i0 e1) (e_i2 e1) f = false) ->
@@ -179,22 +181,41 @@ Theorem C11_swap_limit_reject : forall dumpf e0 e1 old0 old1 s0 s1 rest draws ac
 Proof. exact retis_swap_limit_reject. Qed.
 Print Assumptions C11_swap_limit_reject.
 
-(* The limit ORDER is needed (recorded finding): the container of the backward run that builds
-   the new [0-] path is sized with the [0+] limit ("path_tmp = path_old1.empty_path(maxlen=maxlen1 - 1)"),
-   so with maxlength([0-]) > maxlength([0+]) a backward run cut off by the [0+] limit gives a
-   [0-] path of maxlength([0+]) frames that is below ITS limit, gets ACC, and the swap is accepted
-   with a new [0-] path whose first frame is still inside the interfaces.
+(* The code BEFORE the repair (SwapM.retis_swap_zero_before_fix = retis_swap_zero_g false) sized the
+   container of the backward run that builds the new [0-] path with the [0+] limit ("path_tmp =
+   path_old1.empty_path(maxlen=maxlen1 - 1)"): with maxlength([0-]) > maxlength([0+]) a backward run cut
+   off by the [0+] limit gave a [0-] path of maxlength([0+]) frames that is below ITS limit, got ACC, and
+   the swap was accepted with a new [0-] path whose first frame is still inside the interfaces.
    Witness: limits 12 / 5, old paths 3 1 0 4 / 1 3 5 6, backward run 1 0 2 1 0 7: accepted with the
-   new [0-] path 1 2 0 1 3 (5 frames; complete it would be 7 0 1 2 0 1 3). *)
+   new [0-] path 1 2 0 1 3 (5 frames); the code (same input) accepts the complete path 7 0 1 2 0 1 3
+   and the same new [0+] path. *)
 Theorem C11_swap_valid_limit_order_refuted :
   exists dumpf e0 e1 old0 old1 streams sp0 sp1 calls,
     (e_maxlen e1 < e_maxlen e0)%nat /\ e_i0 e0 <= e_i1 e0 <= e_i2 e0 /\
     minus_valid e0 (sp_path old0) /\ plus_valid e1 (sp_path old1) /\
-    retis_swap_zero dumpf e0 e1 old0 old1 streams [] = Out true sp0 sp1 ACC calls 0 /\
+    retis_swap_zero_before_fix dumpf e0 e1 old0 old1 streams [] = Out true sp0 sp1 ACC calls 0 /\
     plen (sp_path sp0) = e_maxlen e1 /\
-    exists a rest, orders (sp_path sp0) = a :: rest /\ e_i0 e0 <= a <= e_i2 e0.
+    (exists a rest, orders (sp_path sp0) = a :: rest /\ e_i0 e0 <= a <= e_i2 e0) /\
+    exists sp0' sp1' calls',
+      retis_swap_zero dumpf e0 e1 old0 old1 streams [] = Out true sp0' sp1' ACC calls' 0 /\
+      orders (sp_path sp0') = [7; 0; 1; 2; 0; 1; 3] /\ sp_path sp1' = sp_path sp1.
 Proof. exact swap_valid_limit_order_refuted. Qed.
 Print Assumptions C11_swap_valid_limit_order_refuted.
+
+(* the code before the repair IS the code with that one boolean switched (both moves), and with equal
+   limits (infretis' own set-up: one shared tis_set) the two coincide *)
+Theorem C11_before_fix_same_on_equal_limits : forall dumpf vpot_of expf e0 e1,
+  retis_swap_zero_before_fix dumpf = retis_swap_zero_g dumpf false /\ retis_swap_zero dumpf = retis_swap_zero_g dumpf true /\
+  quantis_swap_zero_before_fix vpot_of expf = quantis_swap_zero_g vpot_of expf false /\
+  quantis_swap_zero vpot_of expf = quantis_swap_zero_g vpot_of expf true /\
+  (e_maxlen e0 = e_maxlen e1 ->
+   retis_swap_zero_before_fix dumpf e0 e1 = retis_swap_zero dumpf e0 e1 /\
+   quantis_swap_zero_before_fix vpot_of expf e0 e1 = quantis_swap_zero vpot_of expf e0 e1).
+Proof.
+  intros. split; [reflexivity|]. split; [reflexivity|]. split; [reflexivity|]. split; [reflexivity|].
+  apply before_fix_same_on_equal_limits.
+Qed.
+Print Assumptions C11_before_fix_same_on_equal_limits.
 
 (* The variant that sizes the container of the FORWARD run (the new [0+] path) with the [0-] limit
    ("path_tmp = path0.empty_path(maxlen=maxlen0 - 1)", SwapM.retis_swap_zero_fwd_minus_limit) violates
@@ -287,7 +308,7 @@ Print Assumptions C11_quantis_accept_iff.
 (* The junction of an accepted QuanTIS swap (order parameters, honest first frames): the new
    [0-] path ends with (old[0+][0], its one-step successor computed by engine 0), the new [0+]
    path starts with (old[0-][-2], its one-step successor computed by engine 1); both cross
-   lambda_0 in that step; lengths in [3, maxlength) (sic: the [0-] limit for both); four calls. *)
+   lambda_0 in that step; each length in [3, maxlength of its own ensemble); four calls. *)
 Theorem C11_quantis_junction : forall vpot_of expf e0 e1 b0 b1 old0 old1 streams draws p0 p1 st calls nd,
   quantis_swap_zero vpot_of expf e0 e1 b0 b1 old0 old1 streams draws = Out true p0 p1 st calls nd ->
   first_frame_honest streams calls ->
@@ -297,37 +318,43 @@ Theorem C11_quantis_junction : forall vpot_of expf e0 e1 b0 b1 old0 old1 streams
     orders (sp_path p0) = back ++ [ford f10; ford H0] /\
     orders (sp_path p1) = ford f0m2 :: ford H1 :: forw /\
     ford f10 < e_i2 e0 < ford H0 /\ ford f0m2 < e_i2 e0 < ford H1 /\
-    (3 <= plen (sp_path p0) < e_maxlen e0)%nat /\ (3 <= plen (sp_path p1) < e_maxlen e0)%nat /\
+    (3 <= plen (sp_path p0) < e_maxlen e0)%nat /\ (3 <= plen (sp_path p1) < e_maxlen e1)%nat /\
     st = ACC /\ length calls = 4%nat /\ map c_eng calls = [E0; E1; E0; E1].
 Proof. exact quantis_junction. Qed.
 Print Assumptions C11_quantis_junction.
 
-(* ... hence both new paths are below their OWN limits when maxlength([0-]) <= maxlength([0+]) *)
+(* ... in particular both new paths are below their OWN limits, whatever the two limits are *)
 Theorem C11_quantis_own_limits : forall vpot_of expf e0 e1 b0 b1 old0 old1 streams draws p0 p1 st calls nd,
   quantis_swap_zero vpot_of expf e0 e1 b0 b1 old0 old1 streams draws = Out true p0 p1 st calls nd ->
   first_frame_honest streams calls ->
-  (e_maxlen e0 <= e_maxlen e1)%nat ->
   (3 <= plen (sp_path p0) < e_maxlen e0)%nat /\ (3 <= plen (sp_path p1) < e_maxlen e1)%nat.
 Proof. exact quantis_own_limits. Qed.
 Print Assumptions C11_quantis_own_limits.
 
-(* The limit order is needed (recorded finding): quantis_swap_zero reads the [0-] limit for both
-   paths ("maxlen1 = ens_set0["tis_set"]["maxlength"]").  With maxlength([0-]) > maxlength([0+])
-   it accepts a new [0+] path that is not below the [0+] limit (witness: limits 8 / 4, new [0+]
-   path 0 3 4 1 of 4 frames); with maxlength([0-]) < maxlength([0+]) it rejects with FTX a new
-   [0+] path that is below the [0+] limit (witness: limits 5 / 8, new [0+] path of 5 frames). *)
+(* The code BEFORE the repair (SwapM.quantis_swap_zero_before_fix = quantis_swap_zero_g false) read the
+   [0-] limit for both paths ("maxlen1 = ens_set0["tis_set"]["maxlength"]").  With maxlength([0-]) >
+   maxlength([0+]) it accepted a new [0+] path that is not below the [0+] limit (witness: limits 8 / 4,
+   new [0+] path 0 3 4 1 of 4 frames; the code rejects the same input FTX); with maxlength([0-]) <
+   maxlength([0+]) it rejected with FTX a new [0+] path that is below the [0+] limit (witness: limits
+   5 / 8, new [0+] path of 5 frames; the code accepts the same input with that path). *)
 Theorem C11_quantis_limit_order_refuted :
   (exists vpot_of expf e0 e1 b0 b1 old0 old1 streams draws p0 p1 calls,
      (e_maxlen e1 < e_maxlen e0)%nat /\
-     quantis_swap_zero vpot_of expf e0 e1 b0 b1 old0 old1 streams draws = Out true p0 p1 ACC calls 1 /\
+     quantis_swap_zero_before_fix vpot_of expf e0 e1 b0 b1 old0 old1 streams draws = Out true p0 p1 ACC calls 1 /\
      first_frame_honest streams calls /\
-     (e_maxlen e1 <= plen (sp_path p1))%nat) /\
+     (e_maxlen e1 <= plen (sp_path p1))%nat /\
+     exists p0' p1' calls',
+       quantis_swap_zero vpot_of expf e0 e1 b0 b1 old0 old1 streams draws = Out false p0' p1' FTX calls' 1 /\
+       sp_status p1' = FTX) /\
   (exists vpot_of expf e0 e1 b0 b1 old0 old1 streams draws p0 p1 calls,
      (e_maxlen e0 < e_maxlen e1)%nat /\
-     quantis_swap_zero vpot_of expf e0 e1 b0 b1 old0 old1 streams draws = Out false p0 p1 FTX calls 1 /\
+     quantis_swap_zero_before_fix vpot_of expf e0 e1 b0 b1 old0 old1 streams draws = Out false p0 p1 FTX calls 1 /\
      sp_status p0 = ACC /\ sp_status p1 = FTX /\
      (3 <= plen (sp_path p1) < e_maxlen e1)%nat /\
-     exists pre b, orders (sp_path p1) = pre ++ [b] /\ b < e_i0 e1).
+     (exists pre b, orders (sp_path p1) = pre ++ [b] /\ b < e_i0 e1) /\
+     exists p0' p1' calls',
+       quantis_swap_zero vpot_of expf e0 e1 b0 b1 old0 old1 streams draws = Out true p0' p1' ACC calls' 1 /\
+       orders (sp_path p1') = orders (sp_path p1)).
 Proof. exact quantis_limit_order_refuted. Qed.
 Print Assumptions C11_quantis_limit_order_refuted.
 
@@ -353,7 +380,6 @@ Theorem C11_swap_twice_id : forall (X : Type) (T R : X -> X) (ord : X -> Z) (enc
   forall n e0 e1 old0 old1 a0 b0 new0 new1 st calls nd new0' new1' st' calls' nd',
   phys_path X T R ord dec a0 (sp_path old0) -> phys_path X T R ord dec b0 (sp_path old1) ->
   minus_shape e0 (sp_path old0) -> plus_shape e1 (sp_path old1) ->
-  (e_maxlen e0 <= e_maxlen e1)%nat ->
   det_retis X T R ord enc dec n e0 e1 old0 old1 = Out true new0 new1 st calls nd ->
   det_retis X T R ord enc dec n e0 e1 new0 new1 = Out true new0' new1' st' calls' nd' ->
   orders (sp_path new0') = orders (sp_path old0) /\ orders (sp_path new1') = orders (sp_path old1).
@@ -371,7 +397,6 @@ Theorem C11_swap_twice_restores : forall (X : Type) (T R : X -> X) (ord : X -> Z
   forall n e0 e1 old0 old1 a0 b0 new0 new1 st calls nd,
   phys_path X T R ord dec a0 (sp_path old0) -> phys_path X T R ord dec b0 (sp_path old1) ->
   minus_valid e0 (sp_path old0) -> plus_valid e1 (sp_path old1) ->
-  (e_maxlen e0 <= e_maxlen e1)%nat ->
   (plen (sp_path old0) < e_maxlen e0)%nat -> (plen (sp_path old1) < e_maxlen e1)%nat ->
   (plen (sp_path old0) - 1 <= n)%nat -> (plen (sp_path old1) - 1 <= n)%nat ->
   e_i0 e0 <= e_i1 e0 <= e_i2 e0 -> e_i0 e0 < e_i2 e0 -> e_i2 e0 = e_i0 e1 ->
@@ -431,7 +456,6 @@ Theorem C11_swap_twice_id_two_engines : forall (X : Type) (T0 R0 T1 R1 : X -> X)
   forall n e0 e1 old0 old1 a0 b0 new0 new1 st calls nd new0' new1' st' calls' nd',
   phys_path X T0 R0 ord dec a0 (sp_path old0) -> phys_path X T1 R1 ord dec b0 (sp_path old1) ->
   minus_shape e0 (sp_path old0) -> plus_shape e1 (sp_path old1) ->
-  (e_maxlen e0 <= e_maxlen e1)%nat ->
   det_retis2 X T0 R0 T1 R1 ord enc dec n e0 e1 old0 old1 = Out true new0 new1 st calls nd ->
   det_retis2 X T0 R0 T1 R1 ord enc dec n e0 e1 new0 new1 = Out true new0' new1' st' calls' nd' ->
   orders (sp_path new0') = orders (sp_path old0) /\ orders (sp_path new1') = orders (sp_path old1).
@@ -446,7 +470,6 @@ Theorem C11_swap_twice_restores_two_engines : forall (X : Type) (T0 R0 T1 R1 : X
   forall n e0 e1 old0 old1 a0 b0 new0 new1 st calls nd,
   phys_path X T0 R0 ord dec a0 (sp_path old0) -> phys_path X T1 R1 ord dec b0 (sp_path old1) ->
   minus_valid e0 (sp_path old0) -> plus_valid e1 (sp_path old1) ->
-  (e_maxlen e0 <= e_maxlen e1)%nat ->
   (plen (sp_path old0) < e_maxlen e0)%nat -> (plen (sp_path old1) < e_maxlen e1)%nat ->
   (plen (sp_path old0) - 1 <= n)%nat -> (plen (sp_path old1) - 1 <= n)%nat ->
   e_i0 e0 <= e_i1 e0 <= e_i2 e0 -> e_i0 e0 < e_i2 e0 -> e_i2 e0 = e_i0 e1 ->
@@ -492,26 +515,37 @@ Qed.
 
 (* different limits for the two ensembles, maxlength([0-]) = 6 < maxlength([0+]) = 12: the old paths
    3 1 0 4 / 1 3 5 6 are swapped to 7 2 0 1 3 (5 frames, below 6) / 0 4 5 3 4 5 3 1 (8 frames: more
-   than the [0-] limit, below the [0+] limit); with maxlength([0-]) = 5 the same runs are rejected
-   BTX, with maxlength([0+]) = 8 rejected FTX (each path is measured against its own limit) *)
+   than the [0-] limit, below the [0+] limit), the two run containers sized 5 and 11; with
+   maxlength([0-]) = 5 the same runs are rejected BTX, with maxlength([0+]) = 8 rejected FTX (each path
+   is measured against its own limit); and with the limits the other way round, maxlength([0-]) = 12 >
+   maxlength([0+]) = 5 (Limits.e0b / e1b, the witness input of C11_swap_valid_limit_order_refuted): the
+   backward run 1 0 2 1 0 7 of 6 frames is longer than the [0+] limit and the swap is accepted with the
+   complete new [0-] path 7 0 1 2 0 1 3 *)
 Example C11_example_unequal_limits :
   (e_maxlen Limits.e0 < e_maxlen Limits.e1)%nat /\
   (exists sp0 sp1 calls,
     retis_swap_zero ex_dump Limits.e0 Limits.e1 Limits.old0 Limits.old1 Limits.streams [] = Out true sp0 sp1 ACC calls 0 /\
     orders (sp_path sp0) = [7; 2; 0; 1; 3] /\ orders (sp_path sp1) = [0; 4; 5; 3; 4; 5; 3; 1] /\
     (plen (sp_path sp0) < e_maxlen Limits.e0 < plen (sp_path sp1))%nat /\ (plen (sp_path sp1) < e_maxlen Limits.e1)%nat /\
-    map c_maxlen calls = [11%nat; 11%nat]) /\
+    map c_maxlen calls = [5%nat; 11%nat]) /\
   (exists sp0 sp1 calls,
     retis_swap_zero ex_dump (Limits.with_maxlen Limits.e0 5) Limits.e1 Limits.old0 Limits.old1 Limits.streams [] = Out false sp0 sp1 BTX calls 0) /\
   (exists sp0 sp1 calls,
     retis_swap_zero ex_dump Limits.e0 (Limits.with_maxlen Limits.e1 8) Limits.old0 Limits.old1 Limits.streams [] = Out false sp0 sp1 FTX calls 0 /\
-    sp_status sp1 = FTX).
+    sp_status sp1 = FTX) /\
+  (e_maxlen Limits.e1b < e_maxlen Limits.e0b)%nat /\
+  (exists sp0 sp1 calls,
+    retis_swap_zero ex_dump Limits.e0b Limits.e1b Limits.old0 Limits.old1 Limits.streams_b [] = Out true sp0 sp1 ACC calls 0 /\
+    orders (sp_path sp0) = [7; 0; 1; 2; 0; 1; 3] /\ orders (sp_path sp1) = [0; 4; 1] /\
+    (e_maxlen Limits.e1b < plen (sp_path sp0) < e_maxlen Limits.e0b)%nat /\ map c_maxlen calls = [11%nat; 4%nat]).
 Proof.
-  split; [vm_compute; lia|]. split; [|split].
+  split; [vm_compute; lia|]. split; [|split; [|split; [|split; [vm_compute; lia|]]]].
   - eexists _, _, _. split; [vm_compute; reflexivity|]. split; [reflexivity|]. split; [reflexivity|].
     split; [vm_compute; lia|]. split; [vm_compute; lia|]. reflexivity.
   - eexists _, _, _. vm_compute. reflexivity.
   - eexists _, _, _. split; [vm_compute; reflexivity|]. reflexivity.
+  - eexists _, _, _. split; [vm_compute; reflexivity|]. split; [reflexivity|]. split; [reflexivity|].
+    split; [vm_compute; lia|]. reflexivity.
 Qed.
 
 (* lambda_-1 variant, [0-] path ending on the left: rejected before any engine call *)
